@@ -138,16 +138,23 @@ DecFields(s, bs, pos, i, acc) ==
        IF r.ok THEN DecFields(s, bs, r.pos, i + 1, Append(acc, r.d)) ELSE Fail
 
 \* n items (array) or n key/value pairs (map) starting at pos
+\* n items starting at pos, appended to acc. Long runs are split in halves so that the recursion (and with it TLC's
+\* chain of bindings, which every variable lookup walks) stays logarithmic in n: a block of thousands of items is
+\* decoded in seconds instead of hours.
 DecItems(s, bs, pos, n, acc) ==
   IF n = 0 THEN Res(TRUE, D("acc", <<>>, acc), pos)
+  ELSE IF n > 1 THEN
+         LET h == n \div 2
+             a == DecItems(s, bs, pos, h, acc) IN
+         IF a.ok THEN DecItems(s, bs, a.pos, n - h, a.d.c) ELSE Fail
   ELSE IF s.k = "array" THEN
          LET r == Dec(s.c[1], bs, pos) IN
-         IF r.ok THEN DecItems(s, bs, r.pos, n - 1, Append(acc, r.d)) ELSE Fail
+         IF r.ok THEN Res(TRUE, D("acc", <<>>, Append(acc, r.d)), r.pos) ELSE Fail
        ELSE
          LET k == Dec(Prim("string"), bs, pos) IN
          IF ~k.ok THEN Fail ELSE
          LET r == Dec(s.c[1], bs, k.pos) IN
-         IF r.ok THEN DecItems(s, bs, r.pos, n - 1, Append(acc, D("entry", k.d.b, <<r.d>>))) ELSE Fail
+         IF r.ok THEN Res(TRUE, D("acc", <<>>, Append(acc, D("entry", k.d.b, <<r.d>>))), r.pos) ELSE Fail
 
 \* a series of blocks: count (negative => followed by the byte size of the block), items, ..., count 0
 DecBlocks(s, bs, pos, acc) ==
@@ -166,8 +173,12 @@ DecBlocks(s, bs, pos, acc) ==
 RECURSIVE DecMany(_, _, _, _, _)
 DecMany(s, bs, pos, n, acc) ==
   IF n = 0 THEN [ok |-> TRUE, ds |-> acc, pos |-> pos]
+  ELSE IF n > 1 THEN    \* halves, for the same reason as in DecItems
+       LET h == n \div 2
+           a == DecMany(s, bs, pos, h, acc) IN
+       IF a.ok THEN DecMany(s, bs, a.pos, n - h, a.ds) ELSE a
   ELSE LET r == Dec(s, bs, pos) IN
-       IF r.ok THEN DecMany(s, bs, r.pos, n - 1, Append(acc, r.d)) ELSE [ok |-> FALSE, ds |-> acc, pos |-> 0]
+       IF r.ok THEN [ok |-> TRUE, ds |-> Append(acc, r.d), pos |-> r.pos] ELSE [ok |-> FALSE, ds |-> acc, pos |-> 0]
 
 (* --------------------------- canonical encoder --------------------------- *)
 (* One encoding per datum: collections as a single unsized block followed   *)
